@@ -39,6 +39,42 @@ theorem I_root_congr {w w' : World}
   unfold I_root at *
   simp only [hv]; exact h
 
+theorem I_own_congr {w w' : World}
+    (hv : ∀ v, (w'.val v).graph = (w.val v).graph ∧ (w'.val v).isIn = (w.val v).isIn ∧
+      (w'.val v).isOut = (w.val v).isOut ∧ (w'.val v).isInit = (w.val v).isInit)
+    (hg : ∀ g, (w'.gr g).inputs = (w.gr g).inputs ∧ (w'.gr g).outputs = (w.gr g).outputs ∧
+      (w'.gr g).inCnt = (w.gr g).inCnt ∧ (w'.gr g).outCnt = (w.gr g).outCnt ∧
+      (w'.gr g).inits = (w.gr g).inits) (h : I_own w) : I_own w' := by
+  have hl : ∀ k g, ioList k (w'.gr g) = ioList k (w.gr g) := by
+    intro k g; cases k <;> simp [ioList, hg]
+  have hc : ∀ k g, ioCnt k (w'.gr g) = ioCnt k (w.gr g) := by
+    intro k g; cases k <;> simp [ioCnt, hg]
+  have hf : ∀ k v, ioFlag k (w'.val v) = ioFlag k (w.val v) := by
+    intro k v; cases k <;> simp [ioFlag, hv]
+  have ho : ∀ v, owned (w'.val v) = owned (w.val v) := by
+    intro v; simp [owned, hv]
+  constructor
+  · intro k g v; rw [hl, hc]; exact h.cnt k g v
+  · intro k g v; rw [hl, hf, (hv v).1]; exact h.io_mem k g v
+  · intro k v; rw [hf, (hv v).1]; simp only [hl]; exact h.io_flag k v
+  · intro g key v; rw [(hg g).2.2.2.2, (hv v).1, (hv v).2.2.2]; exact h.init_mem g key v
+  · intro v; rw [(hv v).1, (hv v).2.2.2]; simp only [hg]; exact h.init_flag v
+  · intro v g; rw [(hv v).1, ho]; exact h.graph_owned v g
+
+theorem I_key_congr {w w' : World}
+    (hv : ∀ v, (w'.val v).name = (w.val v).name)
+    (hg : ∀ g, (w'.gr g).inits = (w.gr g).inits) (h : I_key w) : I_key w' := by
+  constructor
+  · intro g key v; rw [hg, hv]; exact h.name g key v
+  · intro g; rw [hg]; exact h.keys g
+
+theorem I_node_congr {w w' : World}
+    (hn : ∀ n, (w'.node n).graph = (w.node n).graph)
+    (hg : ∀ g, (w'.gr g).nodes = (w.gr g).nodes) (h : I_node w) : I_node w' := by
+  constructor
+  · intro n g; rw [hn, hg]; exact h.mem n g
+  · intro g; rw [hg]; exact h.nodup g
+
 /-! ### uses -/
 
 theorem addUse_mem (us : List (Nat × Nat)) (u x : Nat × Nat) : x ∈ addUse us u ↔ x ∈ us ∨ x = u := by
